@@ -361,6 +361,45 @@ class Body:
                 e = E("unknown")
         return e
 
+    def _promoted_expr(self, idx):
+        """value of a promoted constant (`&Some(0)`, `&[1, 2]`): its straight-line body evaluated symbolically"""
+        proms = self.j.get("promoted") or []
+        if not (0 <= idx < len(proms)):
+            return None
+        stmts = proms[idx]
+        defs = {}
+        for st in stmts:
+            if not st["dst"]["p"]:
+                defs[st["dst"]["l"]] = st["rv"]
+
+        def op_e(op, depth):
+            if depth > 12:
+                return UNKNOWN
+            p = op.get("c") or op.get("m")
+            if p is not None:
+                return UNKNOWN if p["p"] else loc_e(p["l"], depth + 1)
+            if "k" in op:
+                k = op["k"]
+                return E("const", v=k.get("v"), ty=k["ty"], name=k.get("s"))
+            return UNKNOWN
+
+        def loc_e(l, depth):
+            rv = defs.get(l)
+            if rv is None or depth > 12:
+                return UNKNOWN
+            k = rv["k"]
+            if k == "use":
+                return op_e(rv["a"], depth)
+            if k == "ref":
+                return UNKNOWN if rv["p"]["p"] else E("ref", a=loc_e(rv["p"]["l"], depth + 1), mut=rv.get("mut"))
+            if k == "agg":
+                return E("agg", ak=rv["ak"], adt=rv.get("adt"), variant=rv.get("variant"), fields=rv.get("fields"),
+                         args=[op_e(o, depth + 1) for o in rv["ops"]])
+            if k == "cast":
+                return E("cast", a=op_e(rv["a"], depth + 1), ty=rv["ty"], op=rv["ck"])
+            return UNKNOWN
+        return loc_e(0, 0)
+
     def operand_expr(self, op, depth=0):
         if "c" in op:
             return self.place_expr(op["c"], depth)
@@ -370,6 +409,10 @@ class Body:
             k = op["k"]
             if "fn" in k:
                 return E("const", q=k["fn"]["q"], f=k["fn"], ty=k["ty"])
+            if "promoted" in k:
+                pe = self._promoted_expr(k["promoted"])
+                if pe is not None:
+                    return pe
             return E("const", v=k.get("v"), ty=k["ty"], name=k.get("s"))
         if "rc" in op:
             return E("const", ty="bool", name="rc:" + op["rc"])
